@@ -138,6 +138,8 @@ macro_rules! cmp {
 
             (A::Date(a), A::Date(b)) => binary_op(a.as_ref(), b.as_ref(), |a, b| a $op b),
 
+            (A::Interval(a), A::Interval(b)) => binary_op(a.as_ref(), b.as_ref(), |a, b| a $op b),
+
             _ => return Err(ConvertError::NoBinaryOp(stringify!($name).into(), self.type_string(), other.type_string())),
         })))
         }
